@@ -153,6 +153,7 @@ func c33UserEvents(r *evid.Run, t *testing.T, ci int, rng *rand.Rand) {
 						continue
 					}
 					counts["user_events_queued"]++
+					lt = m.LTime + 1 // keep the size prediction in step with the node's event clock
 					if len(q) > eff {
 						viols = append(viols, c33Viol{"uev-queued-encoded-over/" + class, fmt.Sprintf("UserEvent accepted and queued %d encoded bytes > limit %d (name %d + payload %d)", len(q), eff, nl, pl), wit})
 					}
@@ -530,7 +531,7 @@ func c33Responses(r *evid.Run, t *testing.T, ci int, rng *rand.Rand) {
 					continue
 				}
 				tries := []int{pl}
-				if d > 0 && rng.Intn(2) == 0 { // a rejected attempt may be retried with a smaller payload
+				if d > 0 && pl-d >= 0 && rng.Intn(2) == 0 { // a rejected attempt may be retried with a smaller payload
 					tries = []int{pl, pl - d}
 				}
 				for ti, p := range tries {
